@@ -78,6 +78,13 @@ Fixpoint ins_run (p : run) (l : list run) : list run :=
   end.
 Definition sort_runs (l : list run) : list run := fold_right ins_run [] l.
 
+(* runs written as a flat list x y z length ... in the cases files *)
+Fixpoint unflat (l : list Z) : list run :=
+  match l with
+  | x :: y :: z :: n :: r => (x, y, z, Z.to_N n) :: unflat r
+  | _ => []
+  end.
+
 Definition bools_digest (m : list bool) : N := digest (map (fun b : bool => if b then 1 else 0) m).
 
 (* ---- cases ---- *)
@@ -100,7 +107,14 @@ Inductive c09case :=
 (* model -> Go: bytes built by the driver's own encoder with table [tbl]; Go: UnmarshalBinary then
    MakeLabelVolume digest, Value at sample points *)
 | CDec (gx gy gz : N) (ps : list paint) (tbl : list N) (bytes_in : bytes) (go_dec : res N)
-       (pts : list pt) (go_val : list N).
+       (pts : list pt) (go_val : list N)
+(* WriteRLEs over a stream of positioned blocks (in the given order); Go: each block's bytes, sorted runs *)
+| CRleM (gx gy gz : N) (blocks : list (list paint * (Z * Z * Z))) (lbls : list N)
+        (go_blocks : list (res bytes)) (go_runs : res (list run))
+(* WriteBinaryBlocks over a stream; Go: bytes written, and per block ReceiveBinaryBlocks returned its
+   voxel offset and the digest of its mask *)
+| CBinM (gx gy gz : N) (blocks : list (list paint * (Z * Z * Z))) (main : N) (lbls : list N)
+        (go_blocks : list (res bytes)) (go_out : res bytes) (go_masks : res (list (Z * Z * Z * N))).
 
 Definition arr_at (a : list N) (nx ny : N) (p : pt) : res N :=
   let '(x, y, z) := p in opt_res (nth_N a ((z * ny + y) * nx + x)).
@@ -114,6 +128,42 @@ Definition with_block (go_bytes : res bytes) (f : block -> bool) : bool :=
   match go_bytes with
   | Ok bs => match unmarshal bs with Ok b => f b | _ => false end
   | _ => false
+  end.
+
+Fixpoint go_block_list (gbs : list (res bytes)) (cs : list (Z * Z * Z)) : option (list (block * (Z * Z * Z))) :=
+  match gbs, cs with
+  | [], [] => Some []
+  | Ok bs :: gr, c :: cr =>
+    match unmarshal bs, go_block_list gr cr with
+    | Ok b, Some r => Some ((b, c) :: r)
+    | _, _ => None
+    end
+  | _, _ => None
+  end.
+
+(* the world of a multi-block case: label at an absolute voxel, from the block arrays *)
+Definition world_label (gx gy gz : N) (arrs : list (list N * (Z * Z * Z))) (x y z : Z) : option N :=
+  let nx := Z.of_N (8 * gx) in let ny := Z.of_N (8 * gy) in let nz := Z.of_N (8 * gz) in
+  let bx := (x / nx)%Z in let by_ := (y / ny)%Z in let bz := (z / nz)%Z in
+  match find (fun e : list N * (Z * Z * Z) => let '(_, (cx, cy, cz)) := e in Z.eqb cx bx && Z.eqb cy by_ && Z.eqb cz bz) arrs with
+  | Some (a, _) => nth_N a (Z.to_N (((z - bz * nz) * ny + (y - by_ * ny)) * nx + (x - bx * nx)))
+  | None => None
+  end.
+
+(* every voxel of every run is foreground, runs of a row do not overlap (list sorted by z, y, x),
+   and together they have as many voxels as there are foreground voxels: exact coverage *)
+Fixpoint runs_cover (gx gy gz : N) (arrs : list (list N * (Z * Z * Z))) (lbls : list N) (rs : list run)
+         (prev : option run) : bool :=
+  match rs with
+  | [] => true
+  | r :: rest =>
+    let '(x, y, z, l) := r in
+    forallb (fun i => match world_label gx gy gz arrs (x + Z.of_N i) y z with Some v => mem v lbls | None => false end) (nseq l)
+    && match prev with
+       | Some (px, py, pz, pl) => negb (Z.eqb py y && Z.eqb pz z) || Z.leb (px + Z.of_N pl) x
+       | None => true
+       end
+    && runs_cover gx gy gz arrs lbls rest (Some r)
   end.
 
 (* implementation output = model output *)
@@ -161,6 +211,18 @@ Definition model_ok (c : c09case) : bool :=
            end
          | _ => true
          end)
+  | CRleM gx gy gz blocks lbls go_blocks go_runs =>
+    match go_block_list go_blocks (map snd blocks) with
+    | Some bl => res_eqb (list_eqb run_eqb)
+                   (match write_rles_multi bl lbls None [] [] with Ok r => Ok (sort_runs r) | Err => Err | Panic => Panic end)
+                   go_runs
+    | None => false
+    end
+  | CBinM gx gy gz blocks main lbls go_blocks go_out go_masks =>
+    match go_block_list go_blocks (map snd blocks) with
+    | Some bl => res_eqb bytes_eqb (write_binary_multi bl main lbls false) go_out
+    | None => false
+    end
   | CDec gx gy gz ps tbl bytes_in go_dec pts go_val =>
     let a := expand (8 * gx) (8 * gy) (8 * gz) ps in
     res_eqb bytes_eqb (match encode tbl a gx gy gz with Ok b' => Ok (marshal b') | Err => Err | Panic => Panic end) (Ok bytes_in)
@@ -225,6 +287,33 @@ Definition spec_class (c : c09case) : nat :=
     | Ok [], _ => if existsb (fun l => mem l lbls) a then 9%nat else 0%nat
     | Ok _, Ok m => if m =? bools_digest (map (fun l => mem l lbls) a) then 0%nat else 9%nat
     | Ok _, Err => 9%nat
+    end
+  | CRleM gx gy gz blocks lbls go_blocks go_runs =>
+    let arrs := map (fun e : list paint * (Z * Z * Z) => (expand (8 * gx) (8 * gy) (8 * gz) (fst e), snd e)) blocks in
+    match go_runs with
+    | Panic => 1%nat
+    | Err => 6%nat
+    | Ok rs =>
+      let total := fold_left (fun acc r => acc + snd r) rs 0 in
+      let fgcount := fold_left (fun acc e => acc + N.of_nat (length (filter (fun v => mem v lbls) (fst e)))) arrs 0 in
+      if runs_cover gx gy gz arrs lbls rs None && (total =? fgcount) then 0%nat else 8%nat
+    end
+  | CBinM gx gy gz blocks main lbls go_blocks go_out go_masks =>
+    let nx := 8 * gx in let ny := 8 * gy in let nz := 8 * gz in
+    let expect := flat_map (fun e : list paint * (Z * Z * Z) =>
+                    let a := expand nx ny nz (fst e) in
+                    let '(bx, by_, bz) := snd e in
+                    if existsb (fun l => mem l lbls) a
+                    then [((bx * Z.of_N nx)%Z, (by_ * Z.of_N ny)%Z, (bz * Z.of_N nz)%Z, bools_digest (map (fun l => mem l lbls) a))]
+                    else []) blocks in
+    match go_out, go_masks with
+    | Panic, _ | _, Panic => 1%nat
+    | Err, _ => 6%nat
+    | Ok _, Err => match expect with [] => 0%nat | _ => 9%nat end
+    | Ok _, Ok ms =>
+      if list_eqb (fun p q : Z * Z * Z * N => let '(a1, b1, c1, d1) := p in let '(a2, b2, c2, d2) := q in
+                                               Z.eqb a1 a2 && Z.eqb b1 b2 && Z.eqb c1 c2 && (d1 =? d2)) ms expect
+      then 0%nat else 9%nat
     end
   | CDec gx gy gz ps tbl bytes_in go_dec pts go_val =>
     let a := expand (8 * gx) (8 * gy) (8 * gz) ps in
